@@ -146,10 +146,24 @@ func sliceIsResultCollection(c *Ctx, slice ssa.Value, coll string, fn *ssa.Funct
 		}
 		for _, e := range callers {
 			arg := e.Site.Common().Args[idx]
-			if _, isParam := arg.(*ssa.Parameter); isParam {
+			switch av := arg.(type) {
+			case *ssa.Parameter:
 				// handed through a helper: decide at the helper's own call sites
 				if ok, why := sliceIsResultCollection(c, arg, coll, e.Caller); !ok {
 					return false, why
+				}
+				continue
+			case *ssa.Phi:
+				// the caller's own accumulating slice, handed to a linking helper after it stopped growing
+				if ok, why := sliceIsResultCollection(c, arg, coll, e.Caller); !ok {
+					return false, why
+				}
+				if site, isInstr := e.Site.(ssa.Instruction); isInstr {
+					for _, l := range naturalLoops(e.Caller) {
+						if l.Header == av.Block() && l.Blocks[site.Block()] {
+							return false, "the helper is called inside the loop that still appends to the slice: a later append re-allocates it and the pointers go stale"
+						}
+					}
 				}
 				continue
 			}
@@ -378,6 +392,12 @@ func feedsAppend(v ssa.Value) bool {
 func runForest(c *Ctx) {
 	p := c.P
 	var writers []string
+	stopsRegion := map[*ssa.Function]bool{}
+	if ps := c.anchor("gtfs:parseStops"); ps != nil {
+		for _, g := range c.regionOf(ps) {
+			stopsRegion[g] = true
+		}
+	}
 	var stopT types.Type
 	field := -1
 	for _, fn := range p.ModFns {
@@ -392,7 +412,7 @@ func runForest(c *Ctx) {
 					continue
 				}
 				stopT, field = fa.X.Type(), fa.Field
-				if !isNilConst(st.Val) && shortName(fn) != "gtfs.parseStops" {
+				if !isNilConst(st.Val) && !stopsRegion[fn] {
 					writers = append(writers, shortName(fn)+" at "+p.ipos(st))
 				}
 			}
